@@ -16,7 +16,8 @@ open ShootVerif.Transfer
     argument is either the zero literal of its type (`rd = none`) or the value of a readable
     (non-setter) field of the other side whose name matches the parameter's field, assigned when the
     types are identical, converted when convertible (not string<->fixed int), or passed through a
-    mapper method of exactly those types. Both directions; all inputs. -/
+    mapper method of exactly those types. Both directions; all inputs. The source constructor (FromX) is
+    matched like the fields are: through the tag map, with the parameter's field in the source role. -/
 theorem C15_ctor_args (inp : Input) :
     (∀ args, (plan inp).destCtor = some args →
       args.map (·.p) = sideParams inp.dest inp.destNew ∧
@@ -25,7 +26,7 @@ theorem C15_ctor_args (inp : Input) :
     (∀ args, (plan inp).srcCtor = some args →
       args.map (·.p) = sideParams inp.src inp.srcNew ∧
       ∀ a ∈ args, a.rd = none ∨ ∃ f, a.rd = some f ∧ f ∈ (plan inp).destFields ∧ f.isSet = false ∧
-        canNameMatch [] inp.ic f a.p = true ∧ justifiedArg inp.conv (indexed inp.fns) f a) := by
+        inp.nm a.p f = true ∧ justifiedArg inp.conv (indexed inp.fns) f a) := by
   constructor
   · intro args h
     have := ctorMatch_args inp.conv inp.fns inp.nm (sideFields inp.src inp.srcNew) (sideParams inp.dest inp.destNew) inp.manualW
@@ -36,9 +37,9 @@ theorem C15_ctor_args (inp : Input) :
     · exact Or.inl h0
     · exact Or.inr ⟨f, h1, h2, h4, h5, h6⟩
   · intro args h
-    have := ctorMatch_args inp.conv inp.fns (canNameMatch [] inp.ic) (sideFields inp.dest inp.destNew)
-      (sideParams inp.src inp.srcNew) inp.manualR
-      (ctorMatch inp.conv inp.fns (canNameMatch [] inp.ic) (sideFields inp.dest inp.destNew) (sideParams inp.src inp.srcNew) inp.manualR).1 args
+    have := ctorMatch_args inp.conv inp.fns (fun f p => inp.nm p f) (sideFields inp.dest inp.destNew)
+      (sideParams inp.src inp.srcNew) inp.readKeys
+      (ctorMatch inp.conv inp.fns (fun f p => inp.nm p f) (sideFields inp.dest inp.destNew) (sideParams inp.src inp.srcNew) inp.readKeys).1 args
       (by rw [← h]; rfl)
     refine ⟨this.1, fun a ha => ?_⟩
     rcases this.2 a ha with h0 | ⟨f, h1, h2, _, h4, h5, h6, _⟩
@@ -57,10 +58,10 @@ theorem C15_set_once (inp : Input) (h1 : (plan inp).srcFields.Nodup) (h2 : (plan
       ∀ c ∈ (plan inp).fromStmts, c.wr.name ≠ a.p.name) := by
   have hinv := planFields_inv (conv := inp.conv) (ps := pairs inp.nm (plan inp).srcFields (plan inp).destFields) inp.fns
     (ctorMatch inp.conv inp.fns inp.nm (sideFields inp.src inp.srcNew) (sideParams inp.dest inp.destNew) inp.manualW).1
-    (ctorMatch inp.conv inp.fns (canNameMatch [] inp.ic) (sideFields inp.dest inp.destNew) (sideParams inp.src inp.srcNew) inp.manualR).1
+    (ctorMatch inp.conv inp.fns (fun f p => inp.nm p f) (sideFields inp.dest inp.destNew) (sideParams inp.src inp.srcNew) inp.readKeys).1
   have hst : (plan inp).st = planFields inp.conv inp.fns (pairs inp.nm (plan inp).srcFields (plan inp).destFields)
       { wD := (ctorMatch inp.conv inp.fns inp.nm (sideFields inp.src inp.srcNew) (sideParams inp.dest inp.destNew) inp.manualW).1,
-        wS := (ctorMatch inp.conv inp.fns (canNameMatch [] inp.ic) (sideFields inp.dest inp.destNew) (sideParams inp.src inp.srcNew) inp.manualR).1 } := rfl
+        wS := (ctorMatch inp.conv inp.fns (fun f p => inp.nm p f) (sideFields inp.dest inp.destNew) (sideParams inp.src inp.srcNew) inp.readKeys).1 } := rfl
   rw [← hst] at hinv
   refine ⟨stmts_nodup _ _ h1 hinv.toNodup, stmts_nodup _ _ h2 hinv.fromNodup, ?_, ?_⟩
   · intro args h a ha hrd c hc e
@@ -70,8 +71,8 @@ theorem C15_set_once (inp : Input) (h1 : (plan inp).srcFields.Nodup) (h2 : (plan
     · exact hrd h0
     · exact (hinv.toIn c (stmts_sub hc).1).2.1 (e ▸ h7)
   · intro args h a ha hrd c hc e
-    have := ctorMatch_args inp.conv inp.fns (canNameMatch [] inp.ic) (sideFields inp.dest inp.destNew)
-      (sideParams inp.src inp.srcNew) inp.manualR _ args (by rw [← h]; rfl)
+    have := ctorMatch_args inp.conv inp.fns (fun f p => inp.nm p f) (sideFields inp.dest inp.destNew)
+      (sideParams inp.src inp.srcNew) inp.readKeys _ args (by rw [← h]; rfl)
     rcases this.2 a ha with h0 | ⟨f, _, _, _, _, _, _, h7⟩
     · exact hrd h0
     · exact (hinv.fromIn c (stmts_sub hc).1).2.1 (e ▸ h7)
@@ -97,7 +98,7 @@ theorem uniqueClaimable_prop (inp : Input) (h : uniqueClaimable inp = true) :
 theorem plan_st_eq (inp : Input) :
     (plan inp).st = planFields inp.conv inp.fns (pairs inp.nm (plan inp).srcFields (plan inp).destFields)
       { wD := (ctorMatch inp.conv inp.fns inp.nm (sideFields inp.src inp.srcNew) (sideParams inp.dest inp.destNew) inp.manualW).1,
-        wS := (ctorMatch inp.conv inp.fns (canNameMatch [] inp.ic) (sideFields inp.dest inp.destNew) (sideParams inp.src inp.srcNew) inp.manualR).1 } := rfl
+        wS := (ctorMatch inp.conv inp.fns (fun f p => inp.nm p f) (sideFields inp.dest inp.destNew) (sideParams inp.src inp.srcNew) inp.readKeys).1 } := rfl
 
 /-- refinement to C05, decision part: in accessor mode (constructor parameters taken first, getters and
     setters as pseudo-fields) every emitted field statement is made for a name-matched pair and applies
@@ -107,16 +108,16 @@ theorem plan_st_eq (inp : Input) :
     unique matching are a special case). Together with `C15_refines_partial` (accessor names match like
     the exported twin), `C15_set_exactly_once` (the statement exists) and `C15_ctor_args` (what the
     constructor carries) this is the refinement; where the constructor deviates from C05 is exactly
-    F_ctorPriority / F_ctorNoSub / F_ctorTag. -/
+    F_ctorNoSub. No statement reads a setter pseudo-field. -/
 theorem C15_refines (inp : Input) (hu : uniqueClaimable inp = true) :
     (∀ c ∈ (plan inp).toStmts, c.rd ∈ (plan inp).srcFields ∧ c.wr ∈ (plan inp).destFields ∧ inp.nm c.rd c.wr = true ∧
-      pairStrat inp.conv (indexed inp.fns) .src .dest c.rd.ty c.wr.ty = some c.strat) ∧
+      pairStrat inp.conv (indexed inp.fns) .src .dest c.rd.ty c.wr.ty = some c.strat ∧ c.rd.isSet = false) ∧
     (∀ c ∈ (plan inp).fromStmts, c.wr ∈ (plan inp).srcFields ∧ c.rd ∈ (plan inp).destFields ∧ inp.nm c.wr c.rd = true ∧
-      pairStrat inp.conv (indexed inp.fns) .dest .src c.rd.ty c.wr.ty = some c.strat) := by
+      pairStrat inp.conv (indexed inp.fns) .dest .src c.rd.ty c.wr.ty = some c.strat ∧ c.rd.isSet = false) := by
   have hU := uniqueClaimable_prop inp hu
   have hs := claim_strat inp.conv inp.fns _ hU
     (ctorMatch inp.conv inp.fns inp.nm (sideFields inp.src inp.srcNew) (sideParams inp.dest inp.destNew) inp.manualW).1
-    (ctorMatch inp.conv inp.fns (canNameMatch [] inp.ic) (sideFields inp.dest inp.destNew) (sideParams inp.src inp.srcNew) inp.manualR).1
+    (ctorMatch inp.conv inp.fns (fun f p => inp.nm p f) (sideFields inp.dest inp.destNew) (sideParams inp.src inp.srcNew) inp.readKeys).1
   rw [← plan_st_eq inp] at hs
   constructor
   · intro c hc
@@ -129,41 +130,74 @@ theorem C15_refines (inp : Input) (hu : uniqueClaimable inp = true) :
     exact ⟨hm.1, hm.2.1, hm.2.2, this.2⟩
 
 /-- headline, "exactly once": a settable (non-getter) field that the constructor did not take and that
-    has a name-matched readable-or-not partner with an applicable strategy is the target of exactly one
+    has a name-matched readable (non-setter) partner with an applicable strategy is the target of exactly one
     statement of ToX; the mirror image for FromX. (`C15_set_once` is the "at most once" half for all inputs.) -/
 theorem C15_set_exactly_once (inp : Input) (hu : uniqueClaimable inp = true)
     (h1 : (plan inp).srcFields.Nodup) (h2 : (plan inp).destFields.Nodup) :
     (∀ f1 f2, f1 ∈ (plan inp).srcFields → f2 ∈ (plan inp).destFields → inp.nm f1 f2 = true → f2.isGet = false →
-      f2.name ∉ (ctorMatch inp.conv inp.fns inp.nm (sideFields inp.src inp.srcNew) (sideParams inp.dest inp.destNew) inp.manualW).1 →
+      f1.isSet = false → f2.name ∉ (ctorMatch inp.conv inp.fns inp.nm (sideFields inp.src inp.srcNew) (sideParams inp.dest inp.destNew) inp.manualW).1 →
       (pairStrat inp.conv (indexed inp.fns) .src .dest f1.ty f2.ty).isSome = true →
       ∃ c ∈ (plan inp).toStmts, c.wr.name = f2.name ∧ ∀ c' ∈ (plan inp).toStmts, c'.wr.name = f2.name → c' = c) ∧
     (∀ f1 f2, f1 ∈ (plan inp).srcFields → f2 ∈ (plan inp).destFields → inp.nm f1 f2 = true → f1.isGet = false →
-      f1.name ∉ (ctorMatch inp.conv inp.fns (canNameMatch [] inp.ic) (sideFields inp.dest inp.destNew) (sideParams inp.src inp.srcNew) inp.manualR).1 →
+      f2.isSet = false → f1.name ∉ (ctorMatch inp.conv inp.fns (fun f p => inp.nm p f) (sideFields inp.dest inp.destNew) (sideParams inp.src inp.srcNew) inp.readKeys).1 →
       (pairStrat inp.conv (indexed inp.fns) .dest .src f2.ty f1.ty).isSome = true →
       ∃ c ∈ (plan inp).fromStmts, c.wr.name = f1.name ∧ ∀ c' ∈ (plan inp).fromStmts, c'.wr.name = f1.name → c' = c) := by
   have hU := uniqueClaimable_prop inp hu
   have hinv := planFields_inv (conv := inp.conv) (ps := pairs inp.nm (plan inp).srcFields (plan inp).destFields) inp.fns
     (ctorMatch inp.conv inp.fns inp.nm (sideFields inp.src inp.srcNew) (sideParams inp.dest inp.destNew) inp.manualW).1
-    (ctorMatch inp.conv inp.fns (canNameMatch [] inp.ic) (sideFields inp.dest inp.destNew) (sideParams inp.src inp.srcNew) inp.manualR).1
+    (ctorMatch inp.conv inp.fns (fun f p => inp.nm p f) (sideFields inp.dest inp.destNew) (sideParams inp.src inp.srcNew) inp.readKeys).1
   rw [← plan_st_eq inp] at hinv
   have once := C15_set_once inp h1 h2
   constructor
-  · intro f1 f2 hf1 hf2 hnm hg hw hs
-    obtain ⟨c, hc, hn⟩ := claim_exists_to inp.conv inp.fns _ hU _ _ (f1, f2) ((mem_pairs _ _ _ _ _).mpr ⟨hf1, hf2, hnm⟩) hg hw hs
+  · intro f1 f2 hf1 hf2 hnm hg hr hw hs
+    obtain ⟨c, hc, hn⟩ := claim_exists_to inp.conv inp.fns _ hU _ _ (f1, f2) ((mem_pairs _ _ _ _ _).mpr ⟨hf1, hf2, hnm⟩) hg hr hw hs
     rw [← plan_st_eq inp] at hc
     have hstmt : c ∈ (plan inp).toStmts :=
       (claims_are_stmts_to hinv hU _ (fun p hp => ((mem_pairs _ _ _ _ _).mp hp).1) c).mpr hc
     refine ⟨c, hstmt, hn, ?_⟩
     intro c' hc' hn'
     exact inj_of_map_nodup (fun x : Claim => x.wr.name) _ once.1 hc' hstmt (by simp [hn, hn'])
-  · intro f1 f2 hf1 hf2 hnm hg hw hs
-    obtain ⟨c, hc, hn⟩ := claim_exists_from inp.conv inp.fns _ hU _ _ (f1, f2) ((mem_pairs _ _ _ _ _).mpr ⟨hf1, hf2, hnm⟩) hg hw hs
+  · intro f1 f2 hf1 hf2 hnm hg hr hw hs
+    obtain ⟨c, hc, hn⟩ := claim_exists_from inp.conv inp.fns _ hU _ _ (f1, f2) ((mem_pairs _ _ _ _ _).mpr ⟨hf1, hf2, hnm⟩) hg hr hw hs
     rw [← plan_st_eq inp] at hc
     have hstmt : c ∈ (plan inp).fromStmts :=
       (claims_are_stmts_from hinv hU _ (fun p hp => ((mem_pairs _ _ _ _ _).mp hp).2.1) c).mpr hc
     refine ⟨c, hstmt, hn, ?_⟩
     intro c' hc' hn'
     exact inj_of_map_nodup (fun x : Claim => x.wr.name) _ once.2.1 hc' hstmt (by simp [hn, hn'])
+
+/-- a field the manual READ hook assigns is the hook's alone (seeded change C15-4): neither the source constructor call
+    of FromX carries a value for it nor does any statement of FromX write it — whether the hook names an exported
+    field or, on a shoot-new receiver, an unexported one (`r.x = …`, keyed `SetX`: the name the constructor parameter
+    and the setter share). The mirror image for the write hook and ToX. All inputs. -/
+theorem C15_hook_owned (inp : Input) :
+    (∀ n ∈ inp.manualR, ∀ key, key = (if inp.srcNew && !isExported n then "Set" ++ pascalS n else n) →
+      (∀ args, (plan inp).srcCtor = some args → ∀ a ∈ args, a.p.name = key → a.rd = none) ∧
+      (∀ c ∈ (plan inp).fromStmts, c.wr.name ≠ key)) ∧
+    (∀ n ∈ inp.manualW,
+      (∀ args, (plan inp).destCtor = some args → ∀ a ∈ args, a.p.name = n → a.rd = none) ∧
+      (∀ c ∈ (plan inp).toStmts, c.wr.name ≠ n)) := by
+  have hinv := planFields_inv (conv := inp.conv) (ps := pairs inp.nm (plan inp).srcFields (plan inp).destFields) inp.fns
+    (ctorMatch inp.conv inp.fns inp.nm (sideFields inp.src inp.srcNew) (sideParams inp.dest inp.destNew) inp.manualW).1
+    (ctorMatch inp.conv inp.fns (fun f p => inp.nm p f) (sideFields inp.dest inp.destNew) (sideParams inp.src inp.srcNew) inp.readKeys).1
+  rw [← plan_st_eq inp] at hinv
+  have hS := ctorMatch_ws inp.conv inp.fns (fun f p => inp.nm p f) (sideFields inp.dest inp.destNew) (sideParams inp.src inp.srcNew) inp.readKeys
+  have hD := ctorMatch_ws inp.conv inp.fns inp.nm (sideFields inp.src inp.srcNew) (sideParams inp.dest inp.destNew) inp.manualW
+  constructor
+  · intro n hn key hkey
+    have hk : key ∈ inp.readKeys := by
+      rw [hkey]; exact List.mem_map.mpr ⟨n, hn, rfl⟩
+    constructor
+    · intro args hargs a ha he
+      exact hS.2 args hargs a ha (he ▸ hk)
+    · intro c hc he
+      exact (hinv.fromIn c (stmts_sub hc).1).2.1 (he ▸ hS.1 key hk)
+  · intro n hn
+    constructor
+    · intro args hargs a ha he
+      exact hD.2 args hargs a ha (he ▸ hn)
+    · intro c hc he
+      exact (hinv.toIn c (stmts_sub hc).1).2.1 (he ▸ hD.1 n hn)
 
 /-- the constructor is used only when at least one argument carries a value -/
 theorem C15_ctor_used (conv : List (Ty × Ty)) (fl : List Fn) (nm : Field → Field → Bool) (fields params : List Field)
@@ -207,21 +241,52 @@ example : ((plan exWF15).destCtor.getD []).map (fun a => (a.p.name, a.rd.map (·
 example : (plan exWF15).srcFields.Nodup ∧ (plan exWF15).destFields.Nodup := by decide
 example : uniqueClaimable exWF15 = true ∧ uniquePairs exWF15 = false := by decide
 
-/-! ### finding regions -/
+/-! ### repaired: inputs of former finding regions now satisfy the property (the model follows the repaired code) -/
 
-/-- a set-only field on the reading side: `s.Wo = d_.SetWo` -/
+/-- a set-only field on the reading side is not read at all (was F_setOnlyRead: `s.Wo = d_.SetWo`, a method value) -/
 def wSetOnly : Input :=
   { src := .field { name := "Wo", ty := .basic "int" } .nil,
     dest := .field { name := "wo", ty := .basic "int", set := true } .nil, destNew := true }
-theorem C15_F_setOnlyRead_witness : region15 wSetOnly = "F_setOnlyRead" ∧ obs15 wSetOnly ≠ spec15 wSetOnly := by decide
+theorem C15_setOnlyRead_fixed :
+    region15 wSetOnly = "WF" ∧ obs15 wSetOnly = spec15 wSetOnly ∧ (plan wSetOnly).fromStmts = [] ∧
+    ((plan wSetOnly).destCtor.getD []).map (fun a => a.rd.map (·.name)) = [some "Wo"] := by decide
 
-/-- constructor argument converted although a mapper method int→int64 exists -/
+/-- the constructor argument goes through the mapper method int→int64, as the field statement would (was F_ctorPriority: converted) -/
 def wCtorPriority : Input :=
   { src := .field { name := "Wide", ty := .basic "int" } .nil,
     dest := .field { name := "wide", ty := .basic "int64" } .nil, destNew := true, way := .toOnly,
     fns := [{ name := "Fn0", param := .basic "int", result := .basic "int64" }], mapperPtr := some false,
     conv := [(.basic "int", .basic "int64"), (.basic "int64", .basic "int")] }
-theorem C15_F_ctorPriority_witness : region15 wCtorPriority = "F_ctorPriority" ∧ obs15 wCtorPriority ≠ spec15 wCtorPriority := by decide
+theorem C15_ctorPriority_fixed :
+    region15 wCtorPriority = "WF" ∧ obs15 wCtorPriority = spec15 wCtorPriority ∧
+    ((plan wCtorPriority).destCtor.getD []).map (·.strat) = [.func 0] := by decide
+
+/-- tagged get-only field of the source type: the source constructor is matched through the tag map (was F_ctorTag) -/
+def wCtorTag : Input :=
+  { src := .field { name := "caption", ty := .basic "string", tag := .name "Title", get := true } .nil,
+    dest := .field { name := "Title", ty := .basic "string" } .nil, srcNew := true, way := .fromOnly }
+theorem C15_ctorTag_fixed :
+    region15 wCtorTag = "WF" ∧ obs15 wCtorTag = spec15 wCtorTag ∧
+    ((plan wCtorTag).srcCtor.getD []).map (fun a => a.rd.map (·.name)) = [some "Title"] := by decide
+
+/-- `*Core` embedded by pointer with a get-only field: the parameter of `Core: &Core{name: name}` is recovered (was F_ctorPtrEmbed) -/
+def wCtorPtrEmbed : Input :=
+  { src := .field { name := "Name", ty := .basic "string" } (.field { name := "ID", ty := .basic "int" } .nil),
+    dest := .embed "Core" true (.field { name := "name", ty := .basic "string", get := true } .nil)
+              (.field { name := "id", ty := .basic "int" } .nil),
+    destNew := true, way := .toOnly }
+theorem C15_ctorPtrEmbed_fixed :
+    region15 wCtorPtrEmbed = "WF" ∧ obs15 wCtorPtrEmbed = spec15 wCtorPtrEmbed ∧
+    ((plan wCtorPtrEmbed).destCtor.getD []).map (fun a => a.rd.map (·.name)) = [some "Name", some "ID"] := by decide
+
+/-- a constructor parameter of type `any` without a partner gets the literal `nil` (was F_ctorZeroAny: the run aborted) -/
+def wCtorZeroAny : Input :=
+  { src := .field { name := "ID", ty := .basic "int" } .nil,
+    dest := .field { name := "id", ty := .basic "int" } (.field { name := "extra", ty := .basic "any" } .nil),
+    destNew := true, way := .toOnly, conv := [(.basic "int", .basic "any")] }
+theorem C15_ctorZeroAny_fixed : region15 wCtorZeroAny = "WF" ∧ obs15 wCtorZeroAny = spec15 wCtorZeroAny := by decide
+
+/-! ### finding regions -/
 
 /-- `map:"-"` on a field of an accessor-mode type -/
 def wSkipTagNew : Input :=
@@ -236,34 +301,14 @@ def wCtorNoSub : Input :=
     destNew := true, way := .toOnly }
 theorem C15_F_ctorNoSub_witness : region15 wCtorNoSub = "F_ctorNoSub" ∧ obs15 wCtorNoSub ≠ spec15 wCtorNoSub := by decide
 
-/-- tagged get-only field of the source type: the source constructor is matched without the tag map -/
-def wCtorTag : Input :=
-  { src := .field { name := "caption", ty := .basic "string", tag := .name "Title", get := true } .nil,
-    dest := .field { name := "Title", ty := .basic "string" } .nil, srcNew := true, way := .fromOnly }
-theorem C15_F_ctorTag_witness : region15 wCtorTag = "F_ctorTag" ∧ obs15 wCtorTag ≠ spec15 wCtorTag := by decide
-
-/-- `*Core` embedded by pointer, its field settable, the constructor unused: `d_.SetName(..)` through a nil pointer -/
+/-- `*Core` embedded by pointer, its field settable, the constructor unused (its only parameter, the `new`-marked
+    `other`, finds no value): `new(D)` leaves `Core` nil and `d_.SetName(..)` goes through it -/
 def wPtrEmbedSetter : Input :=
   { src := .field { name := "Name", ty := .basic "string" } .nil,
-    dest := .embed "Core" true (.field { name := "name", ty := .basic "string" } .nil) .nil,
+    dest := .embed "Core" true (.field { name := "name", ty := .basic "string" } .nil)
+              (.field { name := "other", ty := .basic "int", newMark := true } .nil),
     destNew := true, way := .toOnly }
 theorem C15_F_ptrEmbedSetter_witness :
     region15 wPtrEmbedSetter = "F_ptrEmbedSetter" ∧ obs15 wPtrEmbedSetter ≠ spec15 wPtrEmbedSetter := by decide
-
-/-- `*Core` embedded by pointer with a get-only field: its constructor parameter is not recovered -/
-def wCtorPtrEmbed : Input :=
-  { src := .field { name := "Name", ty := .basic "string" } (.field { name := "ID", ty := .basic "int" } .nil),
-    dest := .embed "Core" true (.field { name := "name", ty := .basic "string", get := true } .nil)
-              (.field { name := "id", ty := .basic "int" } .nil),
-    destNew := true, way := .toOnly }
-theorem C15_F_ctorPtrEmbed_witness :
-    region15 wCtorPtrEmbed = "F_ctorPtrEmbed" ∧ obs15 wCtorPtrEmbed ≠ spec15 wCtorPtrEmbed := by decide
-
-/-- a constructor parameter of type `any` without a partner: `zeroValue` knows no alias types, the run aborts -/
-def wCtorZeroAny : Input :=
-  { src := .field { name := "ID", ty := .basic "int" } .nil,
-    dest := .field { name := "id", ty := .basic "int" } (.field { name := "extra", ty := .basic "any" } .nil),
-    destNew := true, way := .toOnly, conv := [(.basic "int", .basic "any")] }
-theorem C15_F_ctorZeroAny_witness : region15 wCtorZeroAny = "F_ctorZeroAny" ∧ obs15 wCtorZeroAny ≠ spec15 wCtorZeroAny := by decide
 
 end ShootVerif.Mapper
